@@ -9,7 +9,7 @@ ALL = [f"C{i:02d}" for i in range(1, 21)]
 CLAIMS = {
     "C03": dict(
         text="Machine-checked Coq proof (C03_resolve): for the nine versions with an installed interpreter, every opcode 0..255, EVERY operand value and every set of tables (a free variable may have the name of a local), xdis resolves the operand to the same table entry as CPython's dis wherever dis resolves it (const, names incl. LOAD_GLOBAL/LOAD_ATTR >>1 and LOAD_SUPER_ATTR >>2, locals, cells/frees, the 3.11+ merged locals+cells+frees table built in CPython's order with a parameter-cell once, COMPARE_OP >>4 / >>5, 3.13 paired operands). Per-opcode resolution plans are compared by vm_compute over tables regenerated from /repo and from the interpreters; the merged-table lemma is proved for all tables. Model tied to Instruction.argval by correspondence over marker tables on all 39 opcode tables; the spec is run against the real dis of 3.8-3.13.",
-        note="Trusted: Coq kernel; hand models coq/Model/Resolve.v (xdis chain and dis chain) + correspondence; opcode translator. Objects are identified by (table, index) over marker tables. Known finding D16: comparison operators are spelled 'not-in'/'is-not'/'exception-match' (same index) - reported as KNOWN-FINDING; any other spelling difference is a violation (obligation C03_cmp_spelling). Defect D45 (a free variable named like a local lost its slot in the merged 3.11+ name table) was repaired in /repo and the theorem's former hypothesis dropped; the check still runs xdis and dis on such a function compiled by 3.12/3.13. Tables without an interpreter are only tied, not compared with a reference.",
+        note="Trusted: Coq kernel; hand models coq/Model/Resolve.v (xdis chain and dis chain) + correspondence; opcode translator. Objects are identified by (table, index) over marker tables. Known finding D16: comparison operators are spelled 'not-in'/'is-not'/'exception-match' (same index) - reported as KNOWN-FINDING; any other spelling difference is a violation (obligation C03_cmp_spelling). C03_free_slot: every free variable has the slot CPython gives it, whatever its name. Defect D45 (a free variable named like a local lost its slot in the merged 3.11+ name table) was repaired in /repo and the theorem's former hypothesis dropped; the check still runs xdis and dis on such a function compiled by 3.12/3.13. Tables without an interpreter are only tied, not compared with a reference.",
         technique="Coq proof (list lemma + vm_compute plan obligations) + in-Coq correspondence on both sides",
         design="7/C03",
     ),
